@@ -90,6 +90,8 @@ class _SimRunner(_OrigRunner):
         try:
             return await super().run(*a, **k)
         finally:
+            for h in getattr(w, "runner_exit_hooks", ()):
+                h(self)
             w.live_runners[rid].remove(self)
             w.trace.log("runner-exit", run=rid, runner=self._sim_runner_no)
 
@@ -515,6 +517,7 @@ class EngineWorld:
         self.trace = Trace(self.clock)
         self.runtime = SimRuntime(self)
         self.live_runners: dict[str, list] = {}
+        self.runner_exit_hooks: list = []
         self.runner_no = 0
         self._uid = 0
         self.emitted = 0
@@ -784,6 +787,15 @@ class EngineWorld:
                 self.trace.log("emit", uid=e.uid, ev=tname, by=name, via="send", target=None, parent=in_uid,
                                inv=rec["inv"], run=rec["run"], path=e.path)
                 ctx.send_event(e)
+        elif op == "ptwin":
+            # the same event object sent twice: two deliveries with an identical payload
+            _, tname, cnt = act
+            for i in range(cnt):
+                e = self.mk(tname, in_uid, name, path=f"{getattr(ev, 'path', '')}_{name}{i}")
+                for _ in range(2):
+                    self.trace.log("emit", uid=e.uid, ev=tname, by=name, via="send", target=None, parent=in_uid,
+                                   inv=rec["inv"], run=rec["run"], path=e.path, twin=True)
+                    ctx.send_event(e)
         elif op == "pret":
             e = self.mk(act[1], in_uid, name, path=f"{getattr(ev, 'path', '')}_{name}r")
             self.trace.log("emit", uid=e.uid, ev=act[1], by=name, via="return", target=None, parent=in_uid,
@@ -1076,6 +1088,24 @@ async def drive_resume(world: EngineWorld, spec: dict, *, extra=None) -> dict:
     ctx2 = Context.from_dict(wf2, js)
     handler2 = wf2.run(ctx=ctx2, run_id="run2")
     world.trace.log("run-start", run="run2", resumed=True)
+    if world.cfg.get("p_double_resume") and world.tape.chance(world.cfg["p_double_resume"], 100, "double-resume?"):
+        # "persist as soon as the run is (re)started": a second snapshot is taken right after the resume, before the new control
+        # loop has processed anything (in particular before it rehydrated its waiters), and the run is resumed from THAT
+        world.probe("double-resume")
+        try:
+            js2 = json.loads(json.dumps(handler2.ctx.to_dict()))
+        except BaseException as e:  # noqa: BLE001
+            world.trace.log("snapshot-error", exc=type(e).__name__, msg=str(e)[:200], second=True)
+            js2 = None
+        if js2 is not None:
+            world.dead_runs["run2"] = world.trace.log("snapshot", second=True, open_bodies=[], is_running=js2.get("is_running"))
+            outcome["snapshot2"] = js2
+            handler2._external_adapter.abort()
+            handler2._result_task.cancel()
+            await asyncio.sleep(0)
+            wf2 = build_workflow(spec, world)
+            handler2 = wf2.run(ctx=Context.from_dict(wf2, js2), run_id="run3")
+            world.trace.log("run-start", run="run3", resumed=True)
     outcome["resumed"] = True
     outcome["handler"] = handler2
     outcome["wf"] = wf2
